@@ -28,7 +28,6 @@ int main (void) {
   printf ("HASH_P2 %llu\n", (unsigned long long) mir_hash_p2);
   printf ("HASH_UNALIGNED_ACCESS %d\n", MIR_HASH_UNALIGNED_ACCESS);
   printf ("LITTLE_ENDIAN %d\n", MIR_LITTLE_ENDIAN);
-  printf ("EL_SIZE %llu\n", (unsigned long long) sizeof (struct _reduce_el));
   printf ("PREFIX");
   for (; *p; p++) printf (" %d", (unsigned char) *p);
   printf ("\n");
